@@ -207,7 +207,7 @@ static DEFS: &[PropDef] = &[PropDef {
     judge: c18::judge,
     rule: "sweeps first: end of input (and, in a second pass, a read error) after every byte prefix of the corpus sessions, and EVERY message sequence up to length 3 (quick) / 5 (thorough) over a 10-letter lifecycle alphabet; then seeded scenarios: each = one client session over the lifecycle alphabet {initialize, initialized, supported request, $/verif/text, unknown request, didOpen/didChange/didClose, unknown notification, shutdown, exit} of length <= 12 in arbitrary order, with a seeded delivery (segmentation, read sizes, schedule, channel capacities 1..33, stdout capacity) and request ids 1,2,3,.. or zero / negative / large / descending / strided, frames with or without the optional Content-Type header, and optionally one fault: end of input or a read error after a byte prefix, client closing its read end, client stalling; judged against the 5-state lifecycle reference model; non-trivial = at least one fault/back-pressure/yield fired and a frame was emitted; distinct = distinct interleaving signature",
     assumptions: &[
-        "request ids are integers that fit i32 in 98 % of the sessions; 2 % use string ids, which the pinned tree never answers: open known finding C18-K1 (DESIGN 13.15)",
+        "request ids are integers that fit i32 in 98 % of the sessions; 2 % use string ids (finding C18-K1, repaired by af07891, DESIGN 13.15/13.18)",
         "between the initialize answer and `initialized` the property prescribes nothing but exactly one in-order response per request (the code answers ServerNotInitialized)",
         "`exit` without `shutdown` and end of input inside a frame are abnormal terminations: the written responses must be a prefix of the owed ones; completeness is required after shutdown+exit and after end of input on a frame boundary",
         "promptness is judged in scheduler steps (bound 20000 + 400/frame + 8/byte); tokio's blocking stdin thread is below the seam",
